@@ -17,11 +17,10 @@ ENV["CARGO_TERM_COLOR"] = "never"
 # an every-change check (gates are still met at these scales)
 QUICK_SCALE = {"C13": 0.35, "C14": 0.5, "C33": 0.6}
 # thorough tier: multiples of the monitors' built-in thorough budgets, chosen so that every
-# property gets roughly 5-20 minutes of 16 cores (measured on this image; the watchdog is
+# property gets at least a few minutes of 16 cores (measured on this image; the watchdog is
 # 3600 s and a check cut by it is INCONCLUSIVE, never a violation)
-THOROUGH_SCALE = {"C03": 10, "C04": 6, "C05": 40, "C06": 10, "C07": 6, "C09": 2, "C11": 2, "C15": 5, "C16": 5,
-                  "C17": 3, "C18": 6, "C19": 8, "C20": 8, "C21": 6, "C22": 15, "C23": 3, "C25": 3, "C26": 2,
-                  "C30": 3, "C31": 6, "C32": 40, "C33": 2, "C34": 8, "C35": 4, "C36": 5}
+THOROUGH_SCALE = {"C03": 3, "C04": 2, "C05": 10, "C06": 3, "C07": 2, "C15": 2, "C16": 2, "C18": 2, "C19": 2,
+                  "C20": 2, "C21": 2, "C22": 5, "C31": 2, "C32": 10, "C34": 2, "C36": 2}
 
 QUICK_WATCHDOG_S = 900
 THOROUGH_WATCHDOG_S = 3600
